@@ -50,7 +50,7 @@ def _first_repo_frame(text):
         f = m.group(1)
         if "jrsonnet" in f and "jv_worker" not in f:
             return re.sub(r"::h[0-9a-f]{16}", "", f)[:100]
-    m = re.search(r"(/repo/[^\s:]+)", text)
+    m = re.search(r"(%s/[^\s:]+)" % re.escape(runner.REPO.rstrip("/")), text)
     return m.group(1) if m else "?"
 
 
